@@ -449,6 +449,68 @@ func runC10(c *Ctx) {
 		}
 		c.Min("K10-accepted-only-when-compiled", 5)
 	}
+	// ---- K11: the pipelines reject on the same grounds. After the lexer has been created a pipeline returns
+	// an error only under a test of the length of something (the three lists of recorded errors, the number
+	// of compiled rules) or of an error for nil: a rejection on a ground of its own -- a look at the token
+	// stream for input after the last rule, in one copy of the compile code -- makes that entry point reject
+	// texts the others accept
+	for _, f := range pipes {
+		x := c.Index(f)
+		var lex *ssa.Call
+		eachInstr(f, func(in ssa.Instruction) {
+			if call, ok := in.(*ssa.Call); ok && calleeIs(call, pParser, "", "NewgengineLexer") {
+				lex = call
+			}
+		})
+		if lex == nil {
+			continue
+		}
+		bad, badPos := "", f.Pos()
+		eachInstr(f, func(in ssa.Instruction) {
+			r, isR := in.(*ssa.Return)
+			if !isR || bad != "" || len(r.Results) == 0 || !domInstr(lex, r) {
+				return
+			}
+			last := r.Results[len(r.Results)-1]
+			if !isErrorType(last.Type()) {
+				return
+			}
+			mayErr := false
+			for _, pv := range x.ValuesAt(last, r) {
+				if pv.V != nil && !isConstNil(pv.V) {
+					mayErr = true
+				}
+			}
+			if !mayErr {
+				return
+			}
+			for _, g := range x.GuardsOf(r.Block()) {
+				if !domInstr(lex, g.If) {
+					continue
+				}
+				cond := g.Cond
+				for {
+					u, isU := cond.(*ssa.UnOp)
+					if !isU || u.Op != token.NOT {
+						break
+					}
+					cond = u.X
+				}
+				if _, _, _, _, _, isLen := x.lenTest(cond); isLen {
+					continue
+				}
+				if _, _, isLC := x.lenCmpO(cond); isLC {
+					continue
+				}
+				if v, _, isNil := nilCheck(cond); isNil && isErrorType(v.Type()) {
+					continue
+				}
+				bad, badPos = x.Describe(cond), g.If.Pos()
+			}
+		})
+		c.Check("K11-pipelines-reject-on-the-same-grounds", fnName(f), bad == "", badPos, "%s returns an error under the condition %s: a pipeline may reject only on the recorded lexer, parser and listener errors (and an empty result); a ground of its own makes the entry points disagree", fnName(f), orStr(bad, "-"))
+	}
+	c.Min("K11-pipelines-reject-on-the-same-grounds", 3)
 	// ---- K2
 	c.ruleK2("K2-all-or-nothing")
 	c.Min("K2-all-or-nothing", 9)
